@@ -83,6 +83,7 @@ def generate(seed, prop, bias):
     rk = rng.choice(bias.get('relays', ['script']))
     msgs = []
     outcomes = {}
+    scn_write_fail = []
     t = 0.0
     # a queue policy applies to every message enqueued through that queue
     split_all = rng.random() < bias.get('p_split', 0.0) and \
@@ -121,6 +122,10 @@ def generate(seed, prop, bias):
                 if msgs[-1]['body'] is None:
                     msgs[-1].pop('body')
                 outcomes[str(kk)] = gen_outcomes(rng, [r], L, bias)
+            if rng.random() < 0.3:
+                # the storage refuses one of the copies (QueueError): the
+                # others were accepted all the same and are owed delivery
+                scn_write_fail.append(100 * (k + 1) + rng.randrange(nr))
     scn = {
         'property': prop, 'harness': 'queue', 'seed': seed,
         'sched_seed': rng.getrandbits(48),
@@ -134,6 +139,14 @@ def generate(seed, prop, bias):
         'ops': [],
         'chunk_size': rng.choice([64, 256, 1024, 16384]),
     }
+    if scn_write_fail:
+        scn['write_fail'] = scn_write_fail
+    if rng.random() < bias.get('p_slow_store', 0.0) and backend != 'dict':
+        # a slow storage: operations take tenths of a second, so that
+        # whatever waits on a full pool waits for long
+        scn['store_lat'] = [0.0, 0.1, 0.3, 0.6]
+    if backend == 'redis' and rng.random() < 0.3:
+        scn['redis_prefix'] = rng.choice(['mailq-', 'mx1.', 'slimta:in:'])
     if rk != 'script':
         scn['relay'] = rk
         if rk in ('smtp', 'lmtp'):
@@ -376,6 +389,11 @@ def shrink_candidates(scn, clause):
                 x['k'] // 100 == kk + 1)]
             if any(x.get('how') != 'sub' for x in c['messages']):
                 yield finish(c)
+    wf = scn.get('write_fail') or []
+    for i in range(len(wf)):
+        c = dict(scn)
+        c['write_fail'] = wf[:i] + wf[i + 1:]
+        yield c
     # drop ops
     ops = scn.get('ops') or []
     for i in range(len(ops)):
